@@ -584,7 +584,7 @@ func main() {
 		"byte-exact codecs: every non-EOF error a stream returned must surface as an error of the call (also when the stream resumed afterwards); JSON/XML/YAML: the call fails or the decoded value is complete and equal",
 		"for destinations that are interfaces implemented by the harness (io.Writer, io.ReaderFrom, Binary/TextUnmarshaler) 'bytes stored' means the bytes handed over",
 		"round-trip values are restricted to what each format can represent (no control characters in XML, no empty non-nil slices in XML, dynamically typed JSON numbers are json.Number)",
-		"not judged because the statement does not force it: nil reader, unsupported or nil SOURCE of a producer, error on empty text input for an unsupported destination, the value left in a pre-populated destination of JSON/XML/YAML, error identity",
+		"not judged because the statement does not force it: whether an error returned by Close (stream, sink or closable payload) is reported or dropped, the encoding the byte-exact producers choose for struct/slice sources, the state of a source after Produce, nil reader, unsupported or nil SOURCE of a producer, error on empty text input for an unsupported destination, the value left in a pre-populated destination of JSON/XML/YAML, error identity",
 	)
 	r.Finish("one evaluation = one execution of a real producer and/or consumer on scripted streams for one (static case, choice sequence); the explorer never repeats a choice sequence and the static cases are distinct tuples, so evaluations are distinct cases; non-trivial = the codec performed at least one Read or Write on a scripted stream (or panicked)", divergedCases == 0)
 }
